@@ -35,7 +35,7 @@ KEEPS_NUMBERING = {"resequence", "sort", "reverse", "permute_setter", "permute_p
 OWNER_OF_OP = {
     "set_platform": "C02", "flip3": "C02", "conv_obj": "C02",
     "delete_shadow": "C04", "shadow_triple": "C04",
-    "resequence": "C10", "ag_resequence": "C10", "resequence_group": "C10",
+    "resequence": "C10", "ag_resequence": "C10", "resequence_group": "C10", "nested_resequence": "C10",
     "group": "C15", "ungroup": "C15", "sort": "C15", "reverse": "C15", "permute_setter": "C15",
     "permute_popins": "C15", "tcam": "C15",
     "ungroup_ports": "C19", "ungroup_ports_group": "C19", "ace_ungroup_ports": "C19",
@@ -48,7 +48,7 @@ ALPHABET = [
     "reparse", "copy", "export_import", "shading", "shadow_triple", "delete_shadow",
     "ungroup_ports", "ungroup_ports_group", "ace_ungroup_ports", "tcam", "set_item_seq",
     "set_remark_text", "set_members", "set_type", "conv_obj", "ag_resequence", "set_note", "set_ports", "scribble_ipnets",
-    "foreign_parse", "resequence_group",
+    "foreign_parse", "resequence_group", "nested_resequence",
 ]
 
 BIAS = {
@@ -60,8 +60,8 @@ BIAS = {
     "C04": {"shadow_triple": 10, "delete_shadow": 3, "shading": 3, "shadow_of": 1, "group": 2,
             "ungroup": 1, "resequence": 1, "insert": 2, "append": 2, "set_platform": 1,
             "set_members": 5, "copy": 1, "permute_popins": 1, "set_note": 2,
-            "scribble_ipnets": 2},
-    "C10": {"resequence": 10, "ag_resequence": 3, "resequence_group": 3, "group": 2, "ungroup": 1, "sort": 1,
+            "scribble_ipnets": 2, "ungroup_ports": 2},
+    "C10": {"resequence": 10, "ag_resequence": 3, "resequence_group": 3, "nested_resequence": 3, "group": 2, "ungroup": 1, "sort": 1,
             "reverse": 1, "insert": 1, "append": 1, "pop": 1, "set_item_seq": 1,
             "permute_popins": 1, "set_platform": 1, "set_note": 2},
     "C15": {"group": 6, "ungroup": 5, "sort": 5, "reverse": 2, "permute_setter": 3,
@@ -249,6 +249,14 @@ class AclMachine(Machine):
             self._fail(owner if owner in ("C19", "C15") else "C17", f"{owner}.aliased-entries",
                        f"{where}: the same entry object stands at two positions of the ACL",
                        **disc)
+        parts = [id(getattr(x, nm)) for x in lv if isinstance(x, Ace)
+                 for nm in ("protocol", "srcaddr", "srcport", "dstaddr", "dstport", "option")]
+        if len(set(parts)) != len(parts):
+            own = "C19" if (owner == "C19" or self.prop == "C19" and opk in (
+                "set_platform", "flip3")) else "C17"
+            self._fail(own, f"{own}.aliased-parts",
+                       f"{where}: two entries of the ACL share a protocol/address/port/option "
+                       f"object (editing one entry would edit the other)", **disc)
         # -- attributes in sync with the text
         d_text = [r.den(with_members=False) for r in rules_t]
         d_attr = [r.den(with_members=False) for r in attr.flat()]
@@ -450,6 +458,8 @@ class AclMachine(Machine):
                 return self._op_ace_ungroup_ports(op)
             if k == "ag_resequence":
                 return self._op_ag_resequence(op)
+            if k == "nested_resequence":
+                return self._op_nested_resequence(op)
             slot = self._slot(op.get("t", 0))
             if slot is None:
                 return "noop"
@@ -660,6 +670,7 @@ class AclMachine(Machine):
         pre_data = fastcopy(acl.data())
         pre_leaves = list(leaves(acl))
         self._pre_notes = [norm(x.note) for x in pre_leaves]
+        self._pre_leaf_lines = [x.line for x in pre_leaves]
         others = [(o, norm(o["acl"].data())) for o in self.slots if o is not slot]
         # -- twin (history-free object with the same observable state)
         twin = None
@@ -1074,6 +1085,13 @@ class AclMachine(Machine):
         post_leaves = leaves(acl)
         post = alpha_attr(acl).flat()
         k = op["op"]
+        if identity:
+            # the split puts new entries in place of the original; the original object - a caller
+            # or another ACL may still hold it - is not edited
+            for x, ln in zip(pre_leaves, self._pre_leaf_lines):
+                if x.line != ln:
+                    self._fail("C19", "C19.ace-mutated",
+                               f"{k} edited the entry object it replaced: {ln!r} -> {x.line!r}")
         if k == "ungroup_ports_group":
             n = len(m.blocks)
             if not n or not m.blocks[op["i"] % n].grouped:
@@ -1480,6 +1498,98 @@ class AclMachine(Machine):
                        obj="AddrGroup")
         return "ok"
 
+    def _op_nested_resequence(self, op):
+        """C10 on groups nested in groups (built through the list API): "any nesting of non-empty
+        groups and single items".  The tree is a literal: a line, or a list of trees."""
+        self._count_owned("C10")
+        plat = op["platform"]
+        kw = dict(platform=plat)
+
+        def build(tree):
+            if isinstance(tree, str):
+                body = tree.split(None, 1)[1] if tree.split()[0].isdigit() else tree
+                return Remark(tree, **kw) if body.startswith("remark ") else Ace(tree, **kw)
+            first = [build(t) for t in tree if isinstance(t, str)]
+            g = AceGroup(items=first[:1] or [], **kw)
+            seen_first = False
+            for t in tree:
+                if isinstance(t, str) and not seen_first and first:
+                    seen_first = True
+                    continue  # already inside
+                g.append(build(t))
+            return g
+
+        def flat(items):
+            for it in items:
+                if isinstance(it, AceGroup):
+                    yield from flat(it.items)
+                else:
+                    yield it
+
+        def shape(items):
+            return [shape(it.items) if isinstance(it, AceGroup) else 0 for it in items]
+
+        try:
+            tops = [build(t) for t in op["tree"]]
+            if op["root"] == "Acl":
+                root = Acl(name="NEST", items=[], **kw)
+                for t in tops:
+                    root.append(t)
+            else:
+                root = AceGroup(items=[], **kw)
+                for t in tops:
+                    root.append(t)
+        except DOCUMENTED:
+            return "noop"
+        lv = list(flat(root.items))
+        if not lv or any(isinstance(g, AceGroup) and not list(flat(g.items))
+                         for g in root.items):
+            return "noop"
+
+        def strip(x):
+            toks = x.line.split()
+            return " ".join(toks[1:] if toks[0].isdigit() else toks)
+
+        before, ids, shp = [strip(x) for x in lv], [id(x) for x in lv], shape(root.items)
+        notes = [norm(x.note) for x in lv]
+        start, step = op["start"], op["step"]
+        from .aclref import reseq_predict
+        err, nums, _, ret = reseq_predict([len(lv)], start, step)
+        depth = op.get("depth", 0)
+        try:
+            res = root.resequence(start, step)
+        except Exception as ex:
+            if err is None or not isinstance(ex, ValueError):
+                self._fail("C10", "C10.error-iff",
+                           f"{op['root']}.resequence({start},{step}) on nested groups {shp} "
+                           f"raised {type(ex).__name__}: {ex}", obj="nested")
+            self.faults["abort[nested_resequence]"] += 1
+            return "ValueError"
+        if err is not None:
+            self._fail("C10", "C10.error-iff", f"{op['root']}.resequence({start},{step}) on nested "
+                                               f"groups {shp} returned, model predicts ValueError",
+                       obj="nested")
+        lv2 = list(flat(root.items))
+        got = [x.sequence for x in lv2]
+        if got != nums or res != ret:
+            self._fail("C10", "C10.numbers", f"{op['root']}.resequence({start},{step}) on nested "
+                                             f"groups {shp}: {got} ret={res}, want {nums} "
+                                             f"ret={ret}", obj="nested")
+        if [id(x) for x in lv2] != ids or [strip(x) for x in lv2] != before or \
+                shape(root.items) != shp or [norm(x.note) for x in lv2] != notes:
+            self._fail("C10", "C10.only-numbers", f"{op['root']}.resequence on nested groups "
+                                                  f"changed more than the numbers", obj="nested")
+        if any(x > SEQ_MAX for x in got) or res > SEQ_MAX:
+            self._fail("C10", "C10.overflow", "normally returning call left a number > 2**32-1",
+                       obj="nested")
+        if op["root"] == "Acl" and start:
+            tl = [ln.split()[0] for ln in root.line.split("\n")[1:]]
+            if tl != [str(x) for x in nums]:
+                self._fail("C10", "C10.text-numbers", f"rendered numbers {tl} != {nums}",
+                           obj="nested")
+        self.probes[f"nested_resequence_depth{depth}"] += 1
+        return "ok"
+
     # ------------------------------------------------------------- generation
     SEED_ACLS = [
         dict(platform="ios", version="0", name="ACL1", indent="  ", group_by="", port_nr=False,
@@ -1653,6 +1763,10 @@ class AclMachine(Machine):
         t = s.randrange(len(self.slots))
         op = self._gen_op(kind, self.slots[t], st)
         if kind == "scribble_ipnets":
+            self._plan = [(t, "shadow_triple", {})]
+        if kind in ("ungroup_ports", "set_platform") and self.prop in ("C04", "C17") \
+                and s.random() < 0.6:
+            # entries produced by a split are entries like any other for the shadow removal
             self._plan = [(t, "shadow_triple", {})]
         if kind == "tcam" and s.random() < 0.5:
             self._plan = [(t, "set_members", {}), (t, "tcam", {})]
@@ -1842,6 +1956,50 @@ class AclMachine(Machine):
                         "object-group network G"
                     line = "\n".join([head] + ["  " + x[0] for x in mem])
             return dict(op=kind, cls=cls, platform=plat, line=line, ncw=ncw)
+        if kind == "nested_resequence":
+            plat = s.choice(["ios", "nxos"])
+            pre = s.choice(["none", "all", "some"])
+            cnt = [0]
+
+            def line():
+                cnt[0] += 1
+                if w.random() < 0.3:
+                    body = f"remark {w.choice(gen.REMARK_WORDS)}"
+                else:
+                    body = gen.render_ace(gen.gen_ace(w, dict(cfg, p_group=0.0, p_ncw=0.0), plat),
+                                          plat, "0", 0, cfg["names"])
+                if pre == "all" or pre == "some" and w.random() < 0.5:
+                    return f"{w.randint(1, 5000)} {body}"
+                return body
+            maxd = [0]
+
+            def tree(depth):
+                out = [line()]
+                for _ in range(s.randint(0, 2)):
+                    if depth < 3 and s.random() < 0.45:
+                        maxd[0] = max(maxd[0], depth + 1)
+                        out.append(tree(depth + 1))
+                    else:
+                        out.append(line())
+                return out
+            top = []
+            for _ in range(s.randint(1, 3)):
+                if s.random() < 0.6:
+                    maxd[0] = max(maxd[0], 1)
+                    top.append(tree(1))
+                else:
+                    top.append(line())
+            nl_ = cnt[0]
+            step = s.choice([1, 1, 10, 10, 2 ** 31])
+            span = max(nl_ - 1, 0) * step
+            start = s.choice([0, 1, 10, 100, SEQ_MAX - span, SEQ_MAX - span - 1])
+            if cfg["aborts"]:
+                step = s.choice([step, step, 0, -5])
+                start = s.choice([start, start, SEQ_MAX - span + 1, SEQ_MAX, SEQ_MAX + 1, -1])
+            else:
+                start = max(0, min(start, SEQ_MAX - span))
+            return dict(op=kind, platform=plat, root=s.choice(["Acl", "Acl", "AceGroup"]),
+                        tree=top, start=start, step=step, depth=maxd[0])
         if kind == "ag_resequence":
             plat = s.choice(["ios", "nxos"])
             mem = self._ag_member_lines(w, plat, s.randint(1, 6), allow_ncw=False)
